@@ -192,6 +192,30 @@ def close(a, b):
     return abs(a - b) <= TOL * max(1.0, abs(b))
 
 
+def _accessors_without_optimum(model, stats):
+    """The per-object accessors read after a solve without optimum: they raise OptimizationError or - for a status that still has
+    primal values - warn and return the solver's numbers (check_solver_status); any other exception class is not an answer."""
+    import warnings
+
+    from cobra.exceptions import OptimizationError
+
+    if model.solver.status in (None, "optimal"):
+        return
+    for what, objs, attr in (("reaction.flux", model.reactions, "flux"), ("reaction.reduced_cost", model.reactions, "reduced_cost"),
+                             ("metabolite.shadow_price", model.metabolites, "shadow_price")):
+        for o in list(objs)[:2]:
+            try:
+                with warnings.catch_warnings():
+                    warnings.simplefilter("ignore")
+                    getattr(o, attr)
+            except (OptimizationError, RuntimeError):
+                continue
+            except Exception as e:
+                raise Violation("fba_verdict", {"what": f"{what} raises {type(e).__name__} instead of OptimizationError after a solve "
+                                                        f"that ended {model.solver.status}", "exception": repr(e)[:200]})
+    stats["probe:accessors_read_without_optimum"] += 1
+
+
 def judge_optimize(ref, op, sol, raised, model, stats, kf_rc_factor2):
     """Oracles fba_opt / fba_verdict for one optimize() call."""
     from cobra.exceptions import OptimizationError
@@ -213,11 +237,13 @@ def judge_optimize(ref, op, sol, raised, model, stats, kf_rc_factor2):
                                             "exception": repr(raised)[:200], "exact_optimum": _f(res.value)})
         # optimize() may raise OptimizationError for a status without primal values (e.g. unbounded) even
         # without raise_error; the property only demands that the status is never optimal
+        _accessors_without_optimum(model, stats)
         return
     if res.status != "optimal":
         if sol.status == "optimal":
             raise Violation("fba_verdict", {"what": f"status optimal although the problem is {res.status}",
                                             "objective_value": sol.objective_value})
+        _accessors_without_optimum(model, stats)
         if op.get("raise_error"):
             raise Violation("fba_verdict", {"what": f"raise_error=True did not raise on a {res.status} problem", "status": sol.status})
         return
